@@ -749,6 +749,7 @@ package ucfg
 //@ func NewFrom :: from, opts -> r, err
 //@ props C07
 //@ sweep
+//@ checks-pre (*Config).Merge
 //@ pure
 //@ ensures err != nil ==> r == nil
 //@ ensures err == nil ==> r != nil && fresh(r)
@@ -956,6 +957,7 @@ package ucfg
 //@ func (*fieldHandlingTree).child :: t, fieldName, idx -> r, err
 //@ props C07 C16
 //@ sweep
+//@ checks-pre (*Config).Child
 //@ pure
 //@ requires t != nil
 //@ ensures [naming_ok !unproved] (err == nil) == (childT(t, fieldName, idx) != nil)
@@ -965,6 +967,7 @@ package ucfg
 //@ func (*fieldHandlingTree).configHandling :: t, fieldName, idx -> r, err
 //@ props C07 C16
 //@ sweep
+//@ checks-pre (*Config).Uint
 //@ pure
 //@ requires t != nil
 //@ ensures [naming_ok !unproved] fieldName == "*" && idx == -1 ==> (err == nil) == hasPolicy(t)
@@ -1007,6 +1010,7 @@ package ucfg
 //@ func (*fieldHandlingTree).merge :: t, other, opts -> err
 //@ props C07
 //@ sweep
+//@ checks-pre (*Config).Merge
 //@ requires t != nil
 //@ modifies tree(t)
 //@ ensures [typed] isTyped(err)
@@ -1061,6 +1065,7 @@ package ucfg
 //@ func includeWildcard :: child, parent -> r, err
 //@ props C07 C16
 //@ sweep
+//@ checks-pre (*fieldHandlingTree).merge (*fieldHandlingTree).wildcard
 //@ pure
 //@ ensures [naming !unproved] err == nil ==> r == iwSpec(child, parent)
 //@ ensures [no_parent] parent == nil ==> err == nil && r == child
@@ -1364,6 +1369,7 @@ package ucfg
 //@ func (*reference).eval :: r, cfg, opts -> s, err
 //@ props C07
 //@ sweep
+//@ checks-pre (*reference).resolve
 //@ requires r != nil && opts != nil
 //@ modifies tree(opts)
 //@ ensures [naming_ok !unproved] (err == nil) == refOk(pathKey(r.Path), cfg)
@@ -1475,6 +1481,7 @@ package ucfg
 //@ func reifyValue :: opts, t, val -> r, err
 //@ props C06 C07 C04
 //@ sweep
+//@ checks-pre (*context).path chaseTypePointers raiseExpectedObject raiseKeyInvalidTypeUnpack raiseValidation
 //@ uses chase tconfig
 //@ at-call (Value).Convert requires convTo(rvType(v), t)
 //@ requires t != nil
@@ -1671,6 +1678,7 @@ package ucfg
 //@ func normalizeSetField :: cfg, opts, tagOpts, name, v -> result
 //@ props C01 C06 C07
 //@ sweep
+//@ checks-pre (cfgPath).GetValue mergeConfig normalizeValue parsePathWithOpts raiseDuplicateKey
 //@ requires cfg != nil && opts != nil
 //@ modifies *
 //@ at-call mergeConfig requires pathOk(pathFor(entry(name), entry(opts)), entry(cfg)) && to == cfgEval(pathVal(pathFor(entry(name), entry(opts)), entry(cfg))) && to != nil
@@ -1805,6 +1813,7 @@ package ucfg
 //@ props C06 C07
 //@ norte assert nil
 //@ sweep
+//@ checks-pre normalizeArray
 //@ requires opts != nil
 //@ modifies *
 //@ ensures [int_pos @C06] rvType(chased(v)) != old(tDuration) && rvType(chased(v)) != old(tRegexp) && 2 <= rvKind(chased(v)) && rvKind(chased(v)) <= 6 && rvInt(chased(v)) > 0 ==> err == nil && typeof(r) == *cfgUint && r.(*cfgUint) != nil && r.(*cfgUint).u == rvInt(chased(v))
@@ -1935,6 +1944,7 @@ package ucfg
 //@ func tryRecursiveValidate :: val, opts, validators -> result
 //@ props C04 C07
 //@ sweep
+//@ checks-pre validateArray validateMap validateStruct
 //@ modifies *
 //@ rvwrites pointeeStore()
 //@ ensures [naming !unproved] validators == nil ==> (result == nil) == recValid(val)
@@ -1943,6 +1953,7 @@ package ucfg
 //@ func reifyDoArray :: opts, to, elemT, start, val, arr -> r, err
 //@ props C04 C07 C08
 //@ sweep
+//@ checks-pre raiseValidation reifyDoArray$1 reifyMergeValue
 //@ requires opts.opts != nil
 //@ at-call reifyMergeValue requires opts.opts != nil && opts.opts.activeFields != nil && forall k string :: !has(opts.opts.activeFields.fields, k)
 //@ ensures [scope @C08] opts.opts.activeFields == old(opts.opts.activeFields)
@@ -2030,6 +2041,7 @@ package ucfg
 //@ func reifyInto :: opts, to, from -> result
 //@ props C07
 //@ sweep
+//@ checks-pre chaseTypePointers reifyMergeValue
 //@ checks-pre reifyMap reifyStruct
 //@ uses chase
 //@ norte assert
@@ -2052,6 +2064,7 @@ package ucfg
 //@ func reifyStruct :: opts, orig, cfg -> result
 //@ props C13 C07 C08
 //@ sweep
+//@ checks-pre accessField chaseTypePointers raiseInlineNeedsObject raiseValidation reifyGetField reifyMergeValue
 //@ at-call reifyGetField requires opts.opts != nil && opts.opts.activeFields != nil && forall k string :: !has(opts.opts.activeFields.fields, k)
 //@ at-call reifyInto requires opts != nil && opts.activeFields != nil && forall k string :: !has(opts.activeFields.fields, k)
 //@ at-call reifyMergeValue requires opts.opts != nil && opts.opts.activeFields != nil && forall k string :: !has(opts.opts.activeFields.fields, k)
@@ -2197,6 +2210,7 @@ package ucfg
 //@ func raiseInvalidTopLevelType :: v, meta -> result
 //@ props C14 C07
 //@ sweep
+//@ checks-pre chaseTypePointers
 //@ at-call (Value).Type requires rvValid(v)
 //@ rvwrites nothing
 //@ ensures [typed] result != nil && typeof(result) == baseError && result.(baseError).class == ErrConfig && result.(baseError).reason == ErrTypeMismatch
@@ -2318,6 +2332,7 @@ package ucfg
 //@ func reifySliceMerge :: opts, old, tTo, val -> r, err
 //@ props C13 C07 C06
 //@ sweep
+//@ checks-pre (*fieldOptions).configHandling reifyDoArray
 //@ ensures [typed @C06] err == nil ==> rvType(r) == tTo
 //@ requires rtKind(tTo) == 23
 //@ requires opts.opts != nil
@@ -2338,6 +2353,7 @@ package ucfg
 //@ func castArr :: opts, v -> arr, err
 //@ props C07
 //@ sweep
+//@ checks-pre (*context).path
 //@ rvwrites nothing
 
 //@ func parseValidatorTags :: tag -> tags, err
@@ -2368,6 +2384,7 @@ package ucfg
 //@ props C13 C07 C14 C06
 //@ tagged-only C06
 //@ sweep
+//@ checks-pre (cfgPath).GetValue parsePathWithOpts raiseValidation reifyMergeValue
 //@ at-call reifyMergeValue requires val != pathVal(pathFor(entry(name), entry(opts).opts), entry(cfg)) ==> typeof(val) == *cfgNil && val.(*cfgNil).cfgPrimitive.ctx.field == entry(name) && val.(*cfgNil).cfgPrimitive.ctx.parent == subval(entry(cfg))
 //@ requires cfg != nil && opts.opts != nil && rvCanSet(to)
 //@ rvwrites rvRootOf(to), pointeeStore()
@@ -2380,6 +2397,7 @@ package ucfg
 //@ func doReifyPrimitive :: opts, val, baseType -> r, err
 //@ props C03 C06 C07
 //@ sweep
+//@ checks-pre (*context).path raiseConversion raiseToTypeNotSupported reifyBool reifyFloat
 //@ requires opts.opts != nil && val != nil && baseType != nil
 //@ modifies *
 //@ ensures [int_kinds] err == nil && baseType != old(tDuration) && baseType != old(tRegexp) && 2 <= rtKind(baseType) && rtKind(baseType) <= 6 && gotypeOf(val) != baseType ==> rvType(r) == baseType && rvInt(r) == toIntVal(val)
@@ -2405,6 +2423,7 @@ package ucfg
 //@ func reifyPrimitive :: opts, val, t, baseType -> r, err
 //@ props C06 C07 C04
 //@ sweep
+//@ checks-pre raiseValidation
 //@ modifies *
 //@ ensures [target_type] err == nil && val != nil && typeof(val) != *cfgNil && t != baseType && rtKind(t) != 20 ==> rvType(r) == t
 //@ ensures [defaults_validated @C04] err == nil && (val == nil || typeof(val) == *cfgNil) ==> recValidW(r, opts.validators)
@@ -2471,6 +2490,7 @@ package ucfg
 //@ func validateStruct :: val, opts -> result
 //@ props C07 C04
 //@ sweep
+//@ checks-pre accessField
 //@ requires rvKind(chased(val)) == 25
 //@ loop 1 invariant rvKind(val) == 25
 
@@ -2484,6 +2504,7 @@ package ucfg
 //@ func reifyRegexp
 //@ props C07
 //@ sweep
+//@ checks-pre raiseConversion raiseInvalidRegexp
 //@ norte extern@(Value).Elem
 
 //@ func tryTConfig :: value -> r, ok
@@ -2497,6 +2518,7 @@ package ucfg
 //@ func normalizeArray :: opts, tagOpts, ctx, v -> r, err
 //@ props C07 C06
 //@ sweep
+//@ checks-pre normalizeValue
 //@ requires opts != nil && (rvKind(v) == 17 || rvKind(v) == 23)
 //@ modifies *
 //@ ensures [length] err == nil ==> typeof(r) == cfgSub && r.(cfgSub).c != nil && len(r.(cfgSub).c.fields.a) == rvLen(v)
@@ -2511,6 +2533,7 @@ package ucfg
 //@ func normalizeStructInto :: cfg, opts, from -> result
 //@ props C07 C06
 //@ sweep
+//@ checks-pre normalizeMapInto
 //@ requires rvKind(chased(from)) == 25
 //@ at-call normalizeSetField requires isKeyOf(name, rtField(rvType(caller(v)), caller(i)), entry(opts).tag)
 
@@ -2534,6 +2557,7 @@ package ucfg
 //@ func (*splice).eval :: s, cfg, opts -> r, err
 //@ props C08 C07 C02
 //@ sweep
+//@ checks-pre (*splice).eval$1
 //@ requires s != nil && opts != nil
 //@ at-call iface:varEvaler.eval requires opts != nil && opts.activeFields != nil && forall k string :: !has(opts.activeFields.fields, k)
 //@ ensures [scope] opts.activeFields == old(opts.activeFields)
